@@ -117,6 +117,8 @@ pub fn gen_program(seed: u64, len: usize) -> Vec<DOp> {
     p
 }
 
+pub struct CloneBomb;
+
 thread_local! {
     pub static TRANSCRIPT: RefCell<Vec<String>> = RefCell::new(Vec::new());
 }
@@ -167,6 +169,10 @@ macro_rules! interp {
             impl Clone for V {
                 fn clone(&self) -> V {
                     tlog(format!("  ~clone({})", self.tag.get()));
+                    if self.tag.get() % 5 == 0 {
+                        // a Clone impl that fails: nothing must be constructed or destroyed for it
+                        std::panic::panic_any(super::CloneBomb);
+                    }
                     V {
                         tag: Cell::new(self.tag.get() + 100_000),
                         kids: RefCell::new(self.kids.borrow().iter().map(Rc::clone).collect()),
@@ -347,10 +353,15 @@ macro_rules! interp {
                         },
                         DOp::MakeMut(v) => match vars[*v].as_mut() {
                             Some(r) => {
-                                let m = Rc::make_mut(r);
-                                m.tag.set(m.tag.get() + 3);
-                                let t = m.tag.get();
-                                format!("make_mut {} -> tag {} strong {} weak {}", v, t, Rc::strong_count(r), Rc::weak_count(r))
+                                let res = std::panic::catch_unwind(std::panic::AssertUnwindSafe(|| {
+                                    let m = Rc::make_mut(r);
+                                    m.tag.set(m.tag.get() + 3);
+                                    m.tag.get()
+                                }));
+                                match res {
+                                    Ok(t) => format!("make_mut {} -> tag {} strong {} weak {}", v, t, Rc::strong_count(r), Rc::weak_count(r)),
+                                    Err(_) => format!("make_mut {} -> Clone panicked; handle now tag {} strong {} weak {}", v, r.tag.get(), Rc::strong_count(r), Rc::weak_count(r)),
+                                }
                             }
                             None => "skip".into(),
                         },
@@ -591,7 +602,7 @@ pub fn run_diff(prog: &[DOp], over_aligned: bool) -> DiffResult {
         if key.starts_with('w') && key.ends_with(".as_ptr") {
             key = "weak_as_ptr".into();
         }
-        for tag in ["Some", "None", "Ok(", "Err(", "same_ptr true", "-> true", "-> false", "rewrapped"] {
+        for tag in ["Clone panicked", "Some", "None", "Ok(", "Err(", "same_ptr true", "-> true", "-> false", "rewrapped"] {
             if body.contains(tag) {
                 key.push(' ');
                 key.push_str(tag.trim_end_matches('('));
